@@ -8,6 +8,8 @@ import subprocess
 ROOT = os.path.dirname(os.path.dirname(os.path.abspath(__file__)))
 # subject prefix of the fix: commit -> (properties, what failed before the repair, how the checks showed it)
 FIXED = {
+    'fix: GetNodeInfo reports the engine\'s read-only status withou': (['C16'], 'a service without a replication manager answered GetNodeInfo with read_only=false while its engine (switched to read-only by the embedding program) refused every write', 'C16 generated walks over role x manager x mode states: node information after SetReadOnly on a standalone node (witness in findings/)'),
+    'fix: refuse the commit of a read-write transaction once the': (['C16'], 'a read-write transaction begun before the engine was switched to read-only mode committed afterwards: Commit applies to the storage directly and never asked the flag - a client write landed on a read-only node', 'C16 script 22 / random walks with SetRO while transactions are open: commit accepted and data changed under read-only (witness in findings/)'),
     'fix: do not hold the primary\'s sessions lock while reading t': (['C15'], 'lock-order cycle on the primary: the catch-up read held the sessions lock (read) while taking the WAL lock, a writer holds the WAL lock while taking the sessions lock (read), and any pending registration/removal/acknowledgement (write lock) in between blocks the writer for ever', 'C15 churn scenario (full-rate writers while clients attach and reset): "primary put did not return within 5000 ms"; MC_ReplLocks negative configuration deadlocks in the same state; also hit by the C02 retention walks (1 hang in 13)'),
     'fix: WAL retention keeps the log files whose entries are in': (['C02', 'C08'], 'the primary\'s log retention (run on every Acknowledge of a replication client) deleted log files holding entries that were in no table file yet: a crash afterwards lost acknowledged, synced writes, and with all files gone the numbering restarted from 1', 'C02 retention walks generated from KevoRetention (put, flush, acknowledge, die, recover on a real primary): log files / readable entries differ from the specification; MC_Retention_neg violates Recoverable'),
     'fix: serve the entries in front of a damaged record when re': (['C10', 'C14', 'C09'], 'WAL.GetEntriesFrom dropped every entry of an older log file ending in a record cut short by a crash and read on behind corrupt records: a primary restarted after a crash during an append could not serve what it had recovered, a joining replica saw a gap for ever', 'C10 fault enumeration: GetEntriesFrom(1) on the live log compared with what a replay of the directory yields ("from1", 70 outcomes)'),
